@@ -3,7 +3,7 @@
       "E" flags name ident host acct cmd n params...   one received event (as state.history)
       "S" kind name        kind = user | chan (LookupUser / LookupChannel name),
                                   users | chans (Users() / Channels(): every element becomes a snapshot),
-                                  uchans | cusers (name = decimal snapshot id: User.Channels(c) / Channel.Users(c));
+                                  uchans | cusers | ctrusted | cadmins (name = decimal snapshot id: User.Channels(c) / Channel.Users(c) / .Trusted(c) / .Admins(c));
                                   suite heap.members.copied models these two as copying (the proposed fix)
       "M" id field index value   a write through snapshot `id` (see decode_mut)
       "A" id flags n args...     snap.Modes.Apply(snap.Modes.Parse(flags, args))
@@ -159,6 +159,18 @@ Definition snap_op (copied : bool) (d : dstate) (kind name : str) : res dstate :
         | Some (CChan _) =>
             if copied then r <- channel_users_copied_g w o ;; Ok (mkD (mkWorld (fst r) (w_st w)) (d_snaps d ++ List.map Some (snd r)) (d_out d))
             else l <- channel_users_g w o ;; Ok (mkD w (d_snaps d ++ List.map Some l) (d_out d))
+        | _ => Ok d
+        end
+    | _ => Ok d
+    end
+  else if streqb kind (bs "ctrusted") || streqb kind (bs "cadmins") then
+    let test := if streqb kind (bs "ctrusted") then perms_trusted else perms_admin in
+    match nth_error (d_snaps d) (nat_arg name) with
+    | Some (Some o) =>
+        match hget (w_heap w) o with
+        | Some (CChan _) =>
+            if copied then r <- channel_filtered_copied_g test w o ;; Ok (mkD (mkWorld (fst r) (w_st w)) (d_snaps d ++ List.map Some (snd r)) (d_out d))
+            else l <- channel_filtered_g test w o ;; Ok (mkD w (d_snaps d ++ List.map Some l) (d_out d))
         | _ => Ok d
         end
     | _ => Ok d
